@@ -973,6 +973,11 @@ def check_fresh_id(program, rep):
         rep.inconclusive('C01.fresh-id', f.where, f.node.name,
                          'no path returns an id drawn from the generator')
         return
+    if w.diverging:
+        rep.bad('C01.fresh-id', f.where, w.diverging[0].test,
+                'the loop that skips ids already in use does not draw a new '
+                'id: once an automatic id collides with an existing entity '
+                'create_entity never returns', line=w.diverging[0].lineno)
     rep.check(bad is None, 'C01.fresh-id', f.where,
               'entity_id = next(self.id_generator)',
               f'on all {nauto} automatic-id paths the id handed out was '
